@@ -6,7 +6,8 @@ forced collections from {nursery, full} at iteration boundaries; the run ends
 with a forced full collection and the runtime's books are compared with the
 harness allocator's own records (hook H3 + harness allocator). The same runs are also stopped
 without the final collection (n in {0,1,4,64}): bytes_allocated, which the collection trigger
-compares with next_gc, must equal the sum of the blocks owned at that point too.
+compares with next_gc, must equal the sum of the blocks owned at that point too. Prompt sessions: 8 kinds
+of lines that leave nothing behind x n in {0,1,4,16,64,128} lines: no growth of blocks, bytes or temporary roots.
 Checked per run: reported bytes == sum of the sizes the allocator handed out for
 the blocks the runtime owns; per-block size agreement; intern table == live
 string blocks (keys inside their blocks); next_gc == 2 x bytes; every release
@@ -67,6 +68,25 @@ def prog(kind, n, seq):
     return PRE + "fn work(i) { %s }\nlet i = 0; while i < %-4d { work(i); %si += 1; }\nprint('end', keep.len());\n" % (body, n, marks)
 
 
+# the prompt: every line is compiled and run on its own; a line that leaves nothing behind must not make the heap grow
+REPL_KINDS = {
+    "repl_expr": "print(a + %d);",
+    "repl_literals": "let junk = ['lit%d', %d.5, [%d]]; junk = nil;",
+    "repl_call_earlier": "print(f(%d).len());",
+    "repl_lambda": "print((|x| x + %d)(1));",
+    "repl_class_use": "print(K(%d).get());",
+    "repl_error": "nil.nope%d();",
+    "repl_compile_error": "let = %d;",
+    "repl_interp": "print('v${a}w${%d}');",
+}
+REPL_PRE = ["let a = 1;", "fn f(n) { return [n, 's' + n.str()]; }", "class K { init(v) { self.v = v; } get() { return [self.v]; } }", "let junk = nil;"]
+REPL_NS = [0, 1, 4, 16, 64, 128]
+
+
+def repl_lines(kind, n):
+    return REPL_PRE + [REPL_KINDS[kind].replace("%d", str(i)) for i in range(n)] + ["print('end', a);"]
+
+
 class C20(Check):
     id = "C20"
     level = "fault_enumeration"
@@ -81,12 +101,18 @@ class C20(Check):
         for kind in KINDS:
             for seq in SEQS:
                 yield (kind, seq)
+        for kind in REPL_KINDS:
+            yield (kind, "repl")
 
     def describe(self, spec):
+        if spec[1] == "repl":
+            return "prompt session: %s x n lines" % REPL_KINDS[spec[0]]
         return "kind=%s collections=%s" % (spec[0], "".join(spec[1]) or "-")
 
     def build(self, spec):
         kind, seq = spec
+        if seq == "repl":
+            return [{"repl": repl_lines(kind, n), "final_collect": True, "stats": True, "step_limit": 5000000} for n in REPL_NS], None
         ns = NS if True else NS
         cases = [{"src": prog(kind, n, seq), "final_collect": True, "stats": True, "step_limit": 5000000} for n in ns]
         # the same runs stopped without the final collection: the books must agree with the blocks at any point, not only right after a sweep
@@ -94,6 +120,8 @@ class C20(Check):
         return cases, None
 
     def judge(self, spec, ctx, rs):
+        if spec[1] == "repl":
+            return self.judge_repl(spec, rs)
         released = 0
         base = None
         for n, r in zip(MID_NS, rs[len(NS):]):
@@ -143,6 +171,29 @@ class C20(Check):
                         v.finding = "KF-C20-chanleak"
                     return v
         return Verdict(True, released > 0, "ok:%s" % spec[0])
+
+
+def _judge_repl(self, spec, rs):
+    base = None
+    for n, r in zip(REPL_NS, rs):
+        if r.get("class") != "ok" or "end 1\n" not in r.get("out", ""):
+            v = Verdict(False, True, "driver-failed", "prompt session did not run: n=%d class=%s err=%r %s" % (n, r.get("class"), r.get("err", "")[-300:], r.get("panic") or ""))
+            v.extra["machinery"] = True
+            return v
+        st = r["stats"]
+        if r.get("mismatch", 0) or r.get("bad_free", 0) or st["unknown_blocks"] or st["size_diff_blocks"] or st["sum_reported"] != st["sum_actual"] or st["bytes_allocated"] != st["sum_actual"]:
+            return Verdict(False, True, "books", "n=%d lines: the runtime's books disagree with the allocator after the final collection: bytes_allocated=%s sum_actual=%s unknown=%s size_diff=%s" % (
+                n, st["bytes_allocated"], st["sum_actual"], st["unknown_blocks"], st["size_diff_blocks"]))
+        if n >= 16:
+            if base is None:
+                base = (n, st["blocks"], st["bytes_allocated"], st.get("temp_roots"))
+            elif st["blocks"] > base[1] + 2 or st["bytes_allocated"] > base[2] + 256 or st.get("temp_roots") != base[3]:
+                return Verdict(False, True, "growth", "the heap of a prompt session grows with the number of lines although no line leaves anything behind: %d lines -> blocks=%d bytes=%d temporary roots=%s; %d lines -> blocks=%d bytes=%d temporary roots=%s" % (
+                    base[0], base[1], base[2], base[3], n, st["blocks"], st["bytes_allocated"], st.get("temp_roots")))
+    return Verdict(True, True, "ok:%s" % spec[0])
+
+
+C20.judge_repl = _judge_repl
 
 
 def main(tier):
